@@ -548,9 +548,16 @@ func c02H1Serialize(s *verifh.Session, sp *c02Spec) (wire string, framing string
 	return sb.String(), framing, closeAfter
 }
 
+func c02MinInt(a, b int) int {
+	if a < b {
+		return a
+	}
+	return b
+}
+
 func TestVerif_C02_e2eh1(t *testing.T) {
 	s := verifh.New(t, "C02", "e2eh1",
-		"real client <-> raw TCP peer on loopback writing a generated HTTP/1.x response in a generated segmentation: 0..3 interim 1xx, final status {2xx,3xx,4xx,5xx,204,304,205}, GET/HEAD, 0..5 X- fields (repeated names, mixed case, OWS, long values) + Content-Type, framing {Content-Length, chunked (+trailers, extensions), until-close (1.0/1.1)}, body lengths {0,1,2,100,4095..4097,16383..16385,65535..65537, random <5000, 1 MiB+-1} (random or CR/LF/hex alphabet), keep-alive reuse across cases, now and then preceded on the same client by a response the caller abandons after one byte; modes {auto-read, re-read after auto-read, streaming with read sizes 1/7/512/4096/65536, SetOutput, SetOutputFile, DisableAutoReadResponse+ToBytes}; view = status, X-/Content-Type fields, trailers, body; compared with the origin's spec (oracle) and with the Lean model's reading of the same byte stream (bodies <= 70000); non-trivial = non-empty delivered body")
+		"real client <-> raw TCP peer on loopback writing a generated HTTP/1.x response in a generated segmentation: 0..3 interim 1xx, final status {2xx,3xx,4xx,5xx,204,304,205}, GET/HEAD, 0..5 X- fields (repeated names, mixed case, OWS, long values) + Content-Type, framing {Content-Length, chunked (+trailers, extensions), until-close (1.0/1.1)}, body lengths {0,1,2,100,4095..4097,16383..16385,65535..65537, random <5000, 1 MiB+-1} (random or CR/LF/hex alphabet), keep-alive reuse across cases, now and then preceded on the same client by a response the caller abandons after one byte; modes {auto-read, re-read after auto-read, streaming with read sizes 1/7/512/4096/65536, SetOutput, SetOutputFile, DisableAutoReadResponse+ToBytes}; view = status, X-/Content-Type fields, trailers, body; compared with the origin's spec (oracle) and with the Lean models' readings of the same byte stream (bodies <= 70000): Req.C02.parseResponse (own head grammar) and Req.C02.h1ReceiveView (C04's byte-exact head reader Req.H1.parseFinalHead + C02 body automata over the written segmentation: the reader of h1_response_roundtrip_*); non-trivial = non-empty delivered body")
 	r := s.Rand()
 	peer := c02NewH1Peer(t)
 	defer peer.ln.Close()
@@ -595,6 +602,9 @@ func TestVerif_C02_e2eh1(t *testing.T) {
 		peer.mu.Unlock()
 		var view string
 		extraOK := true
+		// name the input being processed, should the whole process die (a panic in the
+		// transport's read loop goroutine cannot be caught here)
+		s.Begin(path, fmt.Sprintf("h1 %s head=%v interim=%d status=%d fields=%d body=%d trailers=%d segs=%d mode=%s/%d closeAfter=%v wire[:120]=%q", framing, sp.head, len(sp.interim), sp.status, len(sp.fields), len(sp.body), len(sp.trailers), len(segs), mode.name, mode.k, closeAfter, wire[:c02MinInt(120, len(wire))]))
 		ptxt, panicked := verifh.Safely(func() {
 			view, extraOK = c02Fetch(cl, sp, mode, base+path, dir, c)
 		})
@@ -636,6 +646,16 @@ func TestVerif_C02_e2eh1(t *testing.T) {
 				hd = "1"
 			}
 			s.Case("c02h1msg "+hd+" eof "+verifh.Hex(wire), view, ok, "", nontriv, human)
+			// the reader of theorem h1_response_roundtrip_*: C04's byte-exact head reader + the
+			// C02 body automata over the segmentation the peer wrote, drained with this read size
+			k := mode.k
+			if k <= 0 {
+				k = verifh.Pick(r, []int{1, 7, 512, 4096, 65536})
+			}
+			if len(wire) > 3000 && k < 512 {
+				k = 4096 // keep the model's drain loop cheap on long bodies
+			}
+			s.Case(fmt.Sprintf("c02h1full %s eof 4096 %s %d", hd, verifh.HexList(segs), k), view, ok, "", nontriv, human+" [full]")
 		} else {
 			detail := view
 			if len(detail) > 300 {
